@@ -40,7 +40,9 @@ def simulate(cfg, num, depth, seed, module="MCGradFlow.tla"):
         cmd = ["tlc", "-simulate", "file=%s/tr,num=%d" % (d, max(1, num // workers)), "-depth", str(depth), "-workers", str(workers),
                "-seed", str(seed),
                "-metadir", os.path.join(d, "meta"), "-noGenerateSpecTE", "-config", cfg, module]
-        p = subprocess.run(cmd, cwd=SPEC_DIR, stdout=subprocess.PIPE, stderr=subprocess.STDOUT, text=True, timeout=1200)
+        env = dict(os.environ)
+        env["JAVA_TOOL_OPTIONS"] = (env.get("JAVA_TOOL_OPTIONS", "") + " -Djava.io.tmpdir=" + d).strip()
+        p = subprocess.run(cmd, cwd=SPEC_DIR, env=env, stdout=subprocess.PIPE, stderr=subprocess.STDOUT, text=True, timeout=1200)
         files = sorted(glob.glob(os.path.join(d, "tr_*")))
         out = []
         for f in files:
